@@ -60,6 +60,12 @@ func (SimpleCommonMessageSignatureProofScheme) ValidateFinalizedProof(
 	proof FinalizedCommonMessageSignatureProof,
 	hashesBySignContent map[string]string,
 ) (map[string]*bitset.BitSet, bool) {
+	if len(proof.Keys) == 0 {
+		// Nothing can be validated without candidate keys,
+		// and the proof constructor panics on an empty key set.
+		return nil, false
+	}
+
 	// The main proof is unconditionally required.
 	tempProof, err := NewSimpleCommonMessageSignatureProof(proof.MainMessage, proof.Keys, proof.PubKeyHash)
 	if err != nil {
